@@ -1,0 +1,90 @@
+//go:build verif
+
+package server
+
+import (
+	"sync/atomic"
+
+	"github.com/openconfig/gribigo/rib"
+
+	spb "github.com/openconfig/gribi/v1/proto/service"
+)
+
+// This file is only compiled with the "verif" build tag. It provides the
+// conformance-checking harness with (a) a tracer called at the linearisation
+// points of the server (inside the lock protecting the state that changed),
+// (b) gates called between two critical sections of one request, outside any
+// lock, which the harness may block to force an interleaving, and (c)
+// read-only snapshots of internal state. Nothing here changes behaviour.
+
+type verifTracerFn func(ev string, args ...any)
+type verifGateFn func(site, who string)
+
+var (
+	verifTracer atomic.Pointer[verifTracerFn]
+	verifGater  atomic.Pointer[verifGateFn]
+)
+
+// VerifSetTracer installs fn as the receiver of trace events (nil removes it).
+func VerifSetTracer(fn func(ev string, args ...any)) {
+	if fn == nil {
+		verifTracer.Store(nil)
+		return
+	}
+	f := verifTracerFn(fn)
+	verifTracer.Store(&f)
+}
+
+// VerifSetGate installs fn as the gate function (nil removes it).
+func VerifSetGate(fn func(site, who string)) {
+	if fn == nil {
+		verifGater.Store(nil)
+		return
+	}
+	f := verifGateFn(fn)
+	verifGater.Store(&f)
+}
+
+func verifTrace(ev string, args ...any) {
+	if f := verifTracer.Load(); f != nil {
+		(*f)(ev, args...)
+	}
+}
+
+func verifGate(site, who string) {
+	if f := verifGater.Load(); f != nil {
+		(*f)(site, who)
+	}
+}
+
+// VerifElection returns the current election ID and the ID of the current master.
+func (s *Server) VerifElection() (*spb.Uint128, string) {
+	s.elecMu.RLock()
+	defer s.elecMu.RUnlock()
+	return s.curElecID, s.curMaster
+}
+
+// VerifSession is a snapshot of the state of one connected client.
+type VerifSession struct {
+	Persist, ExpectElecID, FIBAck bool
+	SetParams                     bool
+	LastElecID                    *spb.Uint128
+}
+
+// VerifSessions returns a snapshot of the per-client state table.
+func (s *Server) VerifSessions() map[string]VerifSession {
+	s.csMu.RLock()
+	defer s.csMu.RUnlock()
+	out := map[string]VerifSession{}
+	for id, c := range s.cs {
+		v := VerifSession{SetParams: c.setParams, LastElecID: c.lastElecID}
+		if c.params != nil {
+			v.Persist, v.ExpectElecID, v.FIBAck = c.params.Persist, c.params.ExpectElecID, c.params.FIBAck
+		}
+		out[id] = v
+	}
+	return out
+}
+
+// VerifRIB returns the server's RIB.
+func (s *Server) VerifRIB() *rib.RIB { return s.masterRIB }
